@@ -86,8 +86,16 @@ class Gen(object):
                 items.append(['math', self.mk(), self.mk()])
             elif c < 0.94:
                 items.append(['verbatim', self.mk('vk')])
-            else:
+            elif c < 0.955:
                 items.append(['nested', self.mk(), self.mk(), self.mk()])
+            elif c < 0.97:
+                items.append(['figure', self.mk(), self.mk()])
+            elif c < 0.98:
+                items.append(['footlist', self.mk(), self.mk('fk'), self.mk()])
+            elif c < 0.99:
+                items.append(['description', self.mk(), self.mk()])
+            else:
+                items.append(['quote', self.mk(), self.mk()])
         return items
 
     def units(self, levels, li, titles):
@@ -147,6 +155,14 @@ def render_body(items, out):
         elif k == 'nested':
             out.append('\\begin{itemize}\\item %s\\begin{enumerate}\\item %s\\end{enumerate}\\item %s\\end{itemize}\n'
                        % (it[1], it[2], it[3]))
+        elif k == 'figure':
+            out.append('%s.\n\\begin{figure}\\caption{%s}\\end{figure}\n' % (it[1], it[2]))
+        elif k == 'footlist':
+            out.append('\\begin{itemize}\\item %s\\footnote{%s}\\item %s\\end{itemize}\n' % (it[1], it[2], it[3]))
+        elif k == 'description':
+            out.append('\\begin{description}\\item[%s] %s\\end{description}\n' % (it[1], it[2]))
+        elif k == 'quote':
+            out.append('\\begin{quote}%s\\end{quote}\n\\begin{center}%s\\end{center}\n' % (it[1], it[2]))
         out.append('\n')
 
 
@@ -185,6 +201,10 @@ def body_markers(items):
             b.append(it[1])
         elif k == 'nested':
             b.extend(it[1:4])
+        elif k in ('figure', 'description', 'quote'):
+            b.extend(it[1:3])
+        elif k == 'footlist':
+            b.append(it[1]); f.append(it[2]); b.append(it[3])
     return b, f
 
 
